@@ -49,7 +49,13 @@ fn gen_chain(g: &mut G, first_path: &str) -> Graph {
             0 => {
                 let h = *g.pick(CHAIN_HOSTS);
                 let port = *g.pick(PORTS);
-                (if port == 80 { format!("http://{}/hop{}", h, i + 1) } else { format!("http://{}:{}/hop{}", h, port, i + 1) }, "absolute")
+                if h == "b.test" && port == 8080 && i % 2 == 1 {
+                    // (no draw) the proxy's own authority as the next hop (a portal page on the proxy host): a URL
+                    // like any other - relayed when a proxy is configured, fetched from that host directly when not
+                    (format!("http://{}:{}/hop{}", PROXY_HOST, PROXY_PORT, i + 1), "absolute-to-the-proxy-host")
+                } else {
+                    (if port == 80 { format!("http://{}/hop{}", h, i + 1) } else { format!("http://{}:{}/hop{}", h, port, i + 1) }, "absolute")
+                }
             }
             1 => (format!("/hop{}?same=authority", i + 1), "absolute-path"),
             _ => {
@@ -630,6 +636,8 @@ pub fn scenario(g: &mut G, ctx: &RunCtx) -> RunReport {
                 Box::new(crate::tlspeer::DualProxy::new(Box::new(move |_c| { let nodes = nodes.clone(); Box::new(HttpPeer::new(
                     Arc::new(move |r, _c| {
                         let t = r.target.clone();
+                        // origin-form: somebody fetches a page of the proxy host itself
+                        let t = if t.starts_with('/') { format!("http://{}{}", r.header_str("host").unwrap_or_default().to_ascii_lowercase(), t) } else { t };
                         let norm = urlref::http_target(&t).map(|(h, p, pq)| if p == 80 { format!("http://{}{}", h, pq) } else { format!("http://{}:{}{}", h, p, pq) });
                         match norm.and_then(|u| nodes.iter().find(|n| n.url == u)) {
                             Some(n) => c09::node_response(n),
@@ -775,6 +783,8 @@ pub fn scenario(g: &mut G, ctx: &RunCtx) -> RunReport {
                         format!("{}:{}", PROXY_IP, PROXY_PORT)
                     } else if is_https {
                         format!("10.0.0.5:{}", port)
+                    } else if host == PROXY_HOST {
+                        format!("{}:{}", PROXY_IP, port)
                     } else {
                         format!("{}:{}", c09::ip_of(&host), port)
                     };
